@@ -124,8 +124,8 @@ func ruleFlushFailStop(c *Ctx, r *Report, prefix string) {
 				}
 			}
 		}
-		if effect && s.pending != nil && p.NonNil(s.pending) {
-			bad = "after a step failed flushChunk goes on with " + strings.TrimSpace(ins.String()) + ": the writer's state is changed although the chunk was not written (a retry then runs on an inconsistent state)"
+		if effect && s.pending != nil && !p.IsNil(s.pending) {
+			bad = "flushChunk goes on with " + strings.TrimSpace(ins.String()) + " although the previous step may have failed (its error is not yet known to be nil): the writer's state changes although the chunk was not written, and a retry runs on an inconsistent state"
 			trace = w.TraceStrings(p)
 			return false
 		}
